@@ -1,7 +1,7 @@
 #!/usr/bin/env python3
 """Re-sweep the archived refactorings with the current checker against the current /repo HEAD.
 
-usage: ref_recheck.py [labels...]     (default: all of /verif/refactorings)
+usage: ref_recheck.py [--shard=i/n] [labels...]     (default: all of /verif/refactorings)
 
 Each patch is applied to a scratch worktree of /repo HEAD (under /tmp, removed afterwards) and every registered check is
 run against the patched tree; the outcome goes to meta.json: confirmed.rechecked = {head, applies, reports}. A
@@ -10,7 +10,12 @@ refactoring that is reported is a false alarm of the checker.
 import json, glob, os, re, subprocess, sys
 ENV = dict(os.environ, GOFLAGS="-mod=mod", GOPROXY="off", GOSUMDB="off", GOTOOLCHAIN="local", GOWORK="off", PATH="/opt/veriftools/go1.26.8/bin:" + os.environ["PATH"])
 KV = os.environ.get("KVLINT", "/verif/bin/kvlint")
-labels = sys.argv[1:] or sorted(os.path.basename(d) for d in glob.glob("/verif/refactorings/*"))
+args = [a for a in sys.argv[1:] if not a.startswith("--shard=")]
+labels = args or sorted(os.path.basename(d) for d in glob.glob("/verif/refactorings/*"))
+for a in sys.argv[1:]:
+    if a.startswith("--shard="):  # --shard=i/n: every n-th label, for running n of these side by side
+        i, n = a[len("--shard="):].split("/")
+        labels = [l for k, l in enumerate(labels) if k % int(n) == int(i)]
 ids = [l.split()[0] for l in subprocess.check_output(KV + " list", shell=True, text=True).split("\n") if l.strip()]
 head = subprocess.check_output("git -C /repo rev-parse --short HEAD", shell=True, text=True).strip()
 wt = "/tmp/refrc-%d" % os.getpid()
